@@ -41,7 +41,8 @@ RULE = (
     "trees (every expression and block variant, depth 1..6, parameters/inputs/fees/compiler ops, boundary integers, a "
     "malformed tail), half of them after apply_inputs so that UTxO sets occur; version names: the known, retired and "
     "near-miss ones, names of every length up to 80, a 2- or 4-byte character at every position of a 64-character name "
-    "(the conversion under catch_unwind); garbage batches of 400 "
+    "(the conversion under catch_unwind); an inflated-count sweep per garbage batch (at every offset of a real "
+    "encoding that reads as a short array or map header the header announces 2^61..2^64-1 entries); garbage batches of 400 "
     "byte strings each (random, bit-flipped, truncated, spliced valid encodings, untyped nesting bombs to depth 10^5, typed "
     "nesting bombs - one of 16 IR wrappers nested 10..10^5 times inside the fees / a reference / a datum slot of a real "
     "encoding, assembled as bytes - huge length prefixes) decoded on a 2 MiB thread in child processes; nesting boundary: for each of 10 expression slots "
